@@ -13,7 +13,7 @@ from mc.alg import FloatAlg, JetAlg, PolyAlg, NonPoly  # noqa: F401
 
 SCALAR_HEADS = {
     "var", "c", "C", "k", "par", "bin", "un", "idx", "midx", "sum", "vsum", "psum", "dot",
-    "mm", "norm", "qform", "QF", "LC", "msum", "trace", "frob",
+    "mm", "norm", "qform", "QF", "LC", "msum", "trace", "frob", "ka",
 }
 VECTOR_HEADS = {
     "vvar", "slice", "row", "col", "diag", "vbin", "rvbin", "vneg", "vpow", "vun", "mv",
